@@ -636,6 +636,7 @@ class C06(SpecProp):
 
 class C10(Prop):
     pid = "C10"
+    shrink_ok = False
     ops = CORE_OPS
     rule = ("a random history on g, then clone(); (i) the clone's complete internal state (hook snapshot) equals the "
             "original's; (ii) the same continuation (incl. next_id, puts, reads that collect) is applied to both copies call "
